@@ -42,7 +42,31 @@ async function run(code, withHooks) {
   } catch (e) { out = 'throw ' + (e && e.constructor ? e.constructor.name : typeof e); }
   return { out, log, bad };
 }
+// mode "prologue": the rewritten code (which starts with the file prologue) is run (1) in a context where the tracer has already
+// installed its hook object: that very object must still be installed afterwards and its hooks must have been called;
+// (2) in a context without any hook object: the code must run with the prologue's pass-throughs and give the original result.
+async function prologueCheck() {
+  const code = fs.readFileSync(rewFile, 'utf8');
+  const problems = [];
+  let calls = 0;
+  const installed = new Proxy({}, { get: (_t, name) => (res) => { calls++; return res; } });
+  const ctx1 = { __log: (x) => x, _ddiast: installed, setTimeout, Promise };
+  vm.createContext(ctx1);
+  let out1;
+  try { vm.runInContext(code, ctx1, { timeout: 2000 }); out1 = 'ok ' + show(vm.runInContext(driver, ctx1, { timeout: 2000 })); } catch (e) { out1 = 'throw ' + (e && e.constructor ? e.constructor.name : typeof e); }
+  if (ctx1._ddiast !== installed) problems.push('installed hook object was replaced');
+  if (calls === 0) problems.push('installed hooks were never called');
+  const ctx2 = { __log: (x) => x, setTimeout, Promise };
+  vm.createContext(ctx2);
+  let out2;
+  try { vm.runInContext(code, ctx2, { timeout: 2000 }); out2 = 'ok ' + show(vm.runInContext(driver, ctx2, { timeout: 2000 })); } catch (e) { out2 = 'throw ' + (e && e.constructor ? e.constructor.name : typeof e) + ' ' + (e && e.message); }
+  const o = await run(fs.readFileSync(origFile, 'utf8'), false);
+  if (out2 !== o.out) problems.push('without a tracer: ' + out2 + ' instead of ' + o.out);
+  if (out1 !== o.out) problems.push('with a tracer: ' + out1 + ' instead of ' + o.out);
+  console.log(problems.length ? 'PROLOGUE-WRONG ' + problems.join(' | ') : 'PROLOGUE-OK ' + out2);
+}
 (async () => {
+if (mode === 'prologue') { await prologueCheck(); return; }
 const o = await run(fs.readFileSync(origFile, 'utf8'), false);
 const r = await run(fs.readFileSync(rewFile, 'utf8'), true);
 if (mode === 'hooks') {
